@@ -108,6 +108,7 @@ class Repo:
         from . import inline
         self.tuple_splits = split_independent_tuple_assignments(self)
         self.aliases_expanded = inline.expand_module_aliases(self)
+        self.attr_aliases = inline.expand_attr_aliases(self)
         self.inlined = inline.apply(self)
 
     def module(self, rel):
